@@ -121,6 +121,8 @@ func H_C06_wire() {
 	n := vfParam("msgs", 1)
 	hdrmode := vfParam("hdrmode", 0)
 	doCancel := vfParam("cancel", 0)
+	wfail := vfParam("wfail", 0)   // the client's k-th transport write fails once (transient), k = wfail
+	badmsg := vfParam("badmsg", 0) // the caller passes a message the codec cannot marshal
 	var herr error
 	if herrP == 1 {
 		herr = errors.New("handler failed")
@@ -157,7 +159,11 @@ func H_C06_wire() {
 	ctap := &zzTap{rw: NewGoatOverChannel(s2c, c2s)}
 	stap := &zzTap{rw: NewGoatOverChannel(c2s, s2c)}
 	go func() { srv.Serve(context.Background(), stap) }()
-	cc := NewClientConn(ctap, "cli", "srv")
+	var crw RpcReadWriter = ctap
+	if wfail > 0 {
+		crw = &zzFailNth{rw: ctap, n: wfail}
+	}
+	cc := NewClientConn(crw, "cli", "srv")
 	ctx, cancel := context.WithCancel(context.Background())
 	done := false
 	method := "/" + zzSvcName + "/Unary"
@@ -183,6 +189,9 @@ func H_C06_wire() {
 					return
 				}
 			}
+		}
+		if badmsg == 1 {
+			cs.SendMsg("not a protobuf message")
 		}
 		switch cp {
 		case 0:
@@ -221,4 +230,24 @@ func H_C06_wire() {
 		vfReach("checked")
 	})
 	_ = io.EOF
+}
+
+// zzFailNth fails exactly the n-th write (1-based) and lets every other one through.
+type zzFailNth struct {
+	rw RpcReadWriter
+	mu vfMutex
+	k  int
+	n  int
+}
+
+func (f *zzFailNth) Read(ctx context.Context) (*Rpc, error) { return f.rw.Read(ctx) }
+func (f *zzFailNth) Write(ctx context.Context, r *Rpc) error {
+	f.mu.vfLock()
+	f.k++
+	fail := f.k == f.n
+	f.mu.vfUnlock()
+	if fail {
+		return errors.New("transient write failure")
+	}
+	return f.rw.Write(ctx, r)
 }
